@@ -229,6 +229,8 @@ for _nt in (1, 2):
     O(id='prim_der_roundtrip.t%d' % _nt, props=['C01', 'C07'], kind='bounded', entry='h_prim_roundtrip', defines=['VF_NTAGS=%d' % _nt],
       functions=['der_encode_primitive', 'der_write_tags', 'ber_decode_primitive', 'ber_check_tags'], unwind=18, cbmc=PRC0,
       bound='contents of at most 6 octets, %d tag(s) with numbers < 128; callback may fail at any call' % _nt, min_props=100, timeout=900, **PR)
+O(id='ber_check_tags.chain2', props=['C03', 'C04', 'C05'], kind='bounded', entry='h_ber_check_tags_chain', functions=['ber_check_tags'],
+  unwind=18, cbmc=PRC0, bound='two-tag chains with one-octet tags, every input of at most 6 octets', min_props=50, timeout=600, **PR)
 O(id='der_encode_primitive.malformed', props=['C07'], kind='bounded', entry='h_der_encode_primitive_malformed', functions=['der_encode_primitive'],
   unwind=42, cbmc=PRC, bound='structures with NULL / non-NULL buffer and size 0..4', min_props=50, **PR)
 O(id='ASN__PRIMITIVE_TYPE_free', props=['C14'], kind='width', entry='h_prim_free', functions=['ASN__PRIMITIVE_TYPE_free'], proves=['ASN__PRIMITIVE_TYPE_free'],
@@ -439,6 +441,14 @@ for _b, _n in ((0, 'OCTET_STRING'), (1, 'BIT_STRING')):
 O(id='oer_open_type_get', props=['C14', 'C18', 'C04'], kind='bounded', entry='h_oer_open_type_get', functions=['oer_open_type_get'],
   unwind=20, cbmc=['--malloc-may-fail', '--malloc-fail-null', '--memory-leak-check'], bound='input of at most 12 octets, inner decoder outcome arbitrary, value storage provided by the caller or allocated by the inner decoder',
   min_props=40, timeout=600, **OTY)
+
+# ---------------------------------------------------------------- UPER open type writer
+O(id='uper_open_type_put.leak', props=['C14', 'C07'], kind='bounded', entry='h_uper_open_type_put', harness='harness/h_per_opentype.c',
+  units=[SK + 'per_opentype.c', SK + 'per_encoder.c'], functions=['uper_open_type_put', 'uper_encode_to_new_buffer', 'encode_dyn_cb'],
+  fp_restrict=[(r'uper_encoder\)$', ['stub_uper']), (r'\.output\)$', ['vf_cb', 'encode_dyn_cb', 'ignore_output'])],
+  unwind=8, cbmc=['--unwindset', 'asn_put_few_bits:3,asn_put_many_bits.0:3', '--malloc-may-fail', '--malloc-fail-null', '--memory-leak-check'],
+  bound='an open type whose contents are 0..8 bits, written at the end of the 32-octet scratch space; callback may fail at any call; every allocation may fail',
+  min_props=50, timeout=900, tier='experimental')
 
 UNVERIFIED = {
  'C07': ['asn_encode_to_buffer / asn_encode_to_new_buffer / uper_encode_to_buffer / uper_encode_to_new_buffer with a UPER type encoder: obligations exist (tier experimental) but do not discharge (symbolic-length memcpy of the 32-octet bit scratch space runs out of memory); asn_encode with UPER is covered',
